@@ -73,6 +73,9 @@ def main():
             open(os.path.join(wt, ".p.diff"), "w").write(headpatch)
             sh(["git", "apply", "-R", ".p.diff"], cwd=wt)
             rc2, o2 = sh(run, cwd=wt, timeout=2400)
+            for _ in range(2):          # a demo that drives real protocols may time out under load: retry on the clean tree
+                if rc2 == 0: break
+                rc2, o2 = sh(run, cwd=wt, timeout=2400)
             res["demo_passes_without_patch"] = rc2 == 0
             res["ran"].append(run + "  (without patch: rc=%d)" % rc2)
             if rc2 != 0:
